@@ -93,14 +93,23 @@ theorem good_walkLoop (nid : Nat) (dir : Int) (stop : Nat) :
         · exact g1
         · exact ih _ _ _ _ _ _ (good_lookupExact g1 _ _ _)
 
-theorem good_foreach {s : State} (g : Good s) (nid pgno subno : Nat) (dir : Int) (stop fuel : Nat) :
-    Good (s.foreachPage nid pgno subno dir stop fuel).1 := by
-  unfold State.foreachPage
+/-- both shapes of the start look-up -/
+theorem good_foreachS (exact : Bool) {s : State} (g : Good s) (nid pgno subno : Nat) (dir : Int) (stop fuel : Nat) :
+    Good (s.foreachPageS exact nid pgno subno dir stop fuel).1 := by
+  unfold State.foreachPageS
   split
   · exact g
   · split
     · exact g
-    · exact good_walkLoop _ _ _ _ _ _ _ _ _ _ (good_getPage g _ _ _ _)
+    · split
+      · refine good_walkLoop _ _ _ _ _ _ _ _ _ _ ?_
+        split
+        · exact good_lookupExact g _ _ _
+        · exact g
+      · exact good_walkLoop _ _ _ _ _ _ _ _ _ _ (good_getPage g _ _ _ _)
+
+theorem good_foreach {s : State} (g : Good s) (nid pgno subno : Nat) (dir : Int) (stop fuel : Nat) :
+    Good (s.foreachPage nid pgno subno dir stop fuel).1 := good_foreachS _ g _ _ _ _ _ _
 
 theorem good_step {s : State} (g : Good s) (op : Op) : Good (step s op).1 := by
   obtain ⟨h, hz, hm⟩ := g
